@@ -9,6 +9,7 @@ import InvProxy.Model.ShimUrl
 import InvProxy.Model.WsCodec
 import InvProxy.Model.Sessions
 import InvProxy.Model.Relay
+import InvProxy.Model.ShimLife
 open InvProxy Driver
 
 /-- suite `backoff`: `target <n>` ↦ un-jittered target in ns;  `loop <pattern of 0/1>` ↦ retry counts slept with -/
@@ -271,11 +272,63 @@ def relayStep (s : Relay.St) : List String → Relay.St × String
         | none => ({ s1 with produced := s1.produced.filter (·.1 ≠ r) }, "blocked")
   | _ => (s, "bad-op")
 
+/-- run internal steps (calls first, then writer, reader, closer) until none is enabled; poll timers are not fired -/
+partial def shimSettle (s : ShimLife.St) : ShimLife.St :=
+  let cands : List ShimLife.Act := (List.range s.calls.length).map ShimLife.Act.call ++ [.writerStep, .readerStep, .closerStep]
+  match cands.findSome? (fun a => ShimLife.step ShimLife.good s a) with
+  | some s' => shimSettle s'
+  | none => s
+
+def shimLast (s : ShimLife.St) : String :=
+  match s.calls.getLast? with
+  | some (.answered c) => toString c
+  | some _ => "pending"
+  | none => "none"
+
+/-- poll repeatedly until a non-200 answer or nothing is left; returns (state, last status, total messages) -/
+partial def shimPollLoop (s : ShimLife.St) (total : Nat) (fuel : Nat) (untilClosed : Bool) : ShimLife.St × Nat × Nat :=
+  if fuel = 0 then (s, 0, total) else
+  let before := s.sq
+  let s1 := shimSettle s
+  let avail := s1.sq
+  match ShimLife.step ShimLife.good s1 .startPoll with
+  | none => (s1, 0, total)
+  | some s2 =>
+    let s3 := shimSettle s2
+    match s3.calls.getLast? with
+    | some (.answered 200) =>
+      let got := avail
+      let _ := before
+      if !untilClosed && s3.incoming = 0 && s3.sq = 0 then (s3, 200, total + got)
+      else shimPollLoop s3 (total + got) (fuel - 1) untilClosed
+    | some (.answered c) => (s3, c, total)
+    | _ => (s3, 408, total)     -- would wait for the 20 s timer
+
+/-- suite `shimlife` -/
+def shimlifeStep (s : ShimLife.St) : List String → ShimLife.St × String
+  | ["open"] => (ShimLife.init 10, "200")
+  | ["data", n] =>
+    match ShimLife.step ShimLife.good s (.startData (natD n)) with
+    | some s1 => let s2 := shimSettle s1; (s2, shimLast s2)
+    | none => (s, "?")
+  | ["close"] =>
+    match ShimLife.step ShimLife.good s .startClose with
+    | some s1 => let s2 := shimSettle s1; (s2, shimLast s2)
+    | none => (s, "?")
+  | ["bsend", k] => ({ s with incoming := s.incoming + natD k }, "ok")
+  | ["pollall"] => let (s', c, t) := shimPollLoop s 0 400 false; (s', s!"{c} {t}")
+  | ["bclose"] =>
+    match ShimLife.step ShimLife.good s .backendClose with
+    | some s1 => let (s', c, t) := shimPollLoop s1 0 400 true; (s', s!"{c} {t}")
+    | none => (s, "?")
+  | _ => (s, "bad-op")
+
 def main (args : List String) : IO UInt32 := do
   let stdin ← IO.getStdin
   let stdout ← IO.getStdout
   match args with
   | ["backoff"] => loop stdin stdout backoffStep (); return 0
+  | ["shimlife"] => loop stdin stdout shimlifeStep (ShimLife.init 10); return 0
   | ["relay"] => loop stdin stdout relayStep Relay.init; return 0
   | ["sessions"] => loop stdin stdout sessionsStep { cap := 0, entries := [] }; return 0
   | ["wscodec"] => loop stdin stdout wscodecStep (); return 0
